@@ -3,16 +3,18 @@
 // operations of the body that can fault. Output: a Coq file (coq/gen/GenGoroutinesReader.v).
 //
 // recover() stops a panic only when it is called directly by the deferred function:
-//   defer shared.TamePanic(out)                  -> RecDirect   (TamePanic/tamePanic call recover themselves)
-//   defer func() { if r := recover(); ... }()    -> RecDirect
-//   defer func() { shared.TamePanic(out) }()     -> RecIndirect (recover() returns nil there: NOT recovered)
-//   nothing                                      -> RecNone
+//
+//	defer shared.TamePanic(out)                  -> RecDirect   (TamePanic/tamePanic call recover themselves)
+//	defer func() { if r := recover(); ... }()    -> RecDirect
+//	defer func() { shared.TamePanic(out) }()     -> RecIndirect (recover() returns nil there: NOT recovered)
+//	nothing                                      -> RecNone
 package main
 
 import (
 	"fmt"
 	"go/ast"
 	"go/parser"
+	"go/printer"
 	"go/token"
 	"os"
 	"path/filepath"
@@ -23,11 +25,11 @@ import (
 var recoverers = map[string]bool{"TamePanic": true, "tamePanic": true}
 
 type entry struct {
-	file, fn  string
-	ord, line int
-	target    string // "" for a function literal, else the called name
-	rec       string
-	leading   bool
+	file, fn                string
+	ord, line               int
+	target                  string // "" for a function literal, else the called name
+	rec                     string
+	leading                 bool
 	div, idx, slc, mk, asrt int
 }
 
@@ -144,6 +146,85 @@ func census(body *ast.BlockStmt, e *entry, locals map[string]*ast.FuncLit, pkg m
 	visit(body)
 }
 
+type loopEntry struct {
+	file, fn  string
+	ord, line int
+	kind, x   string
+	early     bool
+}
+
+// does the loop body leave the loop before its channel is closed: a return, a labelled break/goto, or an
+// unlabelled break that targets this loop (not one inside a nested for/switch/select); closures are not entered
+func earlyExit(body *ast.BlockStmt) bool {
+	found := false
+	var walk func(n ast.Node, depth int)
+	walk = func(n ast.Node, depth int) {
+		if n == nil || found {
+			return
+		}
+		switch x := n.(type) {
+		case *ast.FuncLit:
+			return
+		case *ast.ReturnStmt:
+			found = true
+			return
+		case *ast.BranchStmt:
+			if x.Tok == token.GOTO || (x.Tok == token.BREAK && (x.Label != nil || depth == 0)) {
+				found = true
+			}
+			return
+		case *ast.ForStmt:
+			walk(x.Body, depth+1)
+			return
+		case *ast.RangeStmt:
+			walk(x.Body, depth+1)
+			return
+		case *ast.SwitchStmt:
+			walk(x.Body, depth+1)
+			return
+		case *ast.TypeSwitchStmt:
+			walk(x.Body, depth+1)
+			return
+		case *ast.SelectStmt:
+			walk(x.Body, depth+1)
+			return
+		}
+		ast.Inspect(n, func(c ast.Node) bool {
+			if c == n || c == nil {
+				return true
+			}
+			walk(c, depth)
+			return false
+		})
+	}
+	walk(body, 0)
+	return found
+}
+
+func hasReceive(body *ast.BlockStmt) bool {
+	found := false
+	ast.Inspect(body, func(n ast.Node) bool {
+		if _, ok := n.(*ast.FuncLit); ok {
+			return false
+		}
+		if u, ok := n.(*ast.UnaryExpr); ok && u.Op == token.ARROW {
+			found = true
+		}
+		return true
+	})
+	return found
+}
+
+func exprText(fset *token.FileSet, e ast.Expr) string {
+	var b strings.Builder
+	printer.Fprint(&b, fset, e)
+	t := strings.Join(strings.Fields(b.String()), " ")
+	if len(t) > 60 {
+		t = t[:60]
+	}
+	return strings.ReplaceAll(t, "\"", "'")
+}
+
 func recvName(fd *ast.FuncDecl) string {
 	if fd.Recv == nil || len(fd.Recv.List) == 0 {
 		return fd.Name.Name
@@ -250,6 +331,33 @@ func main() {
 			})
 		}
 	}
+	var loops []loopEntry
+	for _, p := range files {
+		rel, _ := filepath.Rel(root, p)
+		if !strings.HasPrefix(rel, "controller"+string(filepath.Separator)) {
+			continue
+		}
+		for _, dc := range parsed[p].Decls {
+			fd, ok := dc.(*ast.FuncDecl)
+			if !ok || fd.Body == nil {
+				continue
+			}
+			ord := 0
+			ast.Inspect(fd.Body, func(n ast.Node) bool {
+				switch x := n.(type) {
+				case *ast.RangeStmt:
+					loops = append(loops, loopEntry{rel, recvName(fd), ord, fset.Position(x.Pos()).Line, "range", exprText(fset, x.X), earlyExit(x.Body)})
+					ord++
+				case *ast.ForStmt:
+					if hasReceive(x.Body) {
+						loops = append(loops, loopEntry{rel, recvName(fd), ord, fset.Position(x.Pos()).Line, "recv", "", earlyExit(x.Body)})
+						ord++
+					}
+				}
+				return true
+			})
+		}
+	}
 	var b strings.Builder
 	b.WriteString("(* GENERATED by translate/gen_goroutines_reader from " + "$VERIF_REPO/reader" + " -- do not edit, never committed *)\n")
 	b.WriteString("From Coq Require Import List String ZArith.\nFrom Qryn Require Import model.ReaderGoroutines.\nImport ListNotations.\nOpen Scope string_scope.\n\n")
@@ -265,6 +373,20 @@ func main() {
 		}
 		fmt.Fprintf(&b, "  {| g_file := %q; g_func := %q; g_ord := %d; g_target := %q; g_rec := %s; g_leading := %s;\n     g_div := %d; g_idx := %d; g_slice := %d; g_make := %d; g_assert := %d |}%s (* line %d *)\n",
 			e.file, e.fn, e.ord, e.target, e.rec, lead, e.div, e.idx, e.slc, e.mk, e.asrt, sep, e.line)
+	}
+	b.WriteString("].\n\n(* every range / receive loop of reader/controller: does it leave before its channel is closed? *)\n")
+	b.WriteString("Definition reader_loops : list rloop := [\n")
+	for i, l := range loops {
+		sep := ";"
+		if i == len(loops)-1 {
+			sep = ""
+		}
+		early := "false"
+		if l.early {
+			early = "true"
+		}
+		fmt.Fprintf(&b, "  {| l_file := %q; l_func := %q; l_ord := %d; l_kind := %q; l_x := %q; l_early := %s |}%s (* line %d *)\n",
+			l.file, l.fn, l.ord, l.kind, l.x, early, sep, l.line)
 	}
 	b.WriteString("].\n")
 	if err := os.WriteFile(out, []byte(b.String()), 0644); err != nil {
